@@ -249,9 +249,8 @@ func run(c *core.Case, st *core.CaseStats, seed int64) {
 			for i := 0; i < run; i++ {
 				data[len(data)-1-i] = byte(p)
 			}
-		} else {
-			data[len(data)-1] = byte(p)
 		}
+		data[len(data)-1] = byte(p) // (also for p = 0 and p > 16, where no run is written)
 		if cor > 0 && cor <= len(data) {
 			data[len(data)-cor] ^= 0x40
 			if cor == 1 {
